@@ -1055,4 +1055,204 @@ theorem loadChars_docs (s : PStream) (h : docsOk2 true s.docs = true) : loadChar
   rfl
 
 
+/-! ## From `admissible` to the proof-side predicates -/
+
+mutual
+/-- No anchors and no aliases. -/
+def PNode.noAnchors : PNode → Bool
+  | .anchored _ _ => false
+  | .alias _ _ => false
+  | .seq _ _ _ items => items.noAnchors
+  | .map _ _ _ es => es.noAnchors
+  | _ => true
+def PItems.noAnchors : PItems → Bool
+  | .nil => true
+  | .cons _ x r => x.noAnchors && r.noAnchors
+def PEntries.noAnchors : PEntries → Bool
+  | .nil => true
+  | .cons _ _ _ x r => x.noAnchors && r.noAnchors
+end
+
+mutual
+theorem fl2_of_ok : (x : PNode) → ∀ (ctx : Ctx) (m : Meta), x.ok true ctx m = true → x.noAnchors = true → x.fl2 = true
+  | .null v, _, _, h, _ => by simpa [PNode.ok, PNode.fl2, PNode.sc2] using h
+  | .bool _ _, _, _, _, _ => rfl
+  | .int _ _, _, _, _, _ => rfl
+  | .str s st, ctx, m, h, _ => by
+    cases st <;> simp_all [PNode.ok, PNode.fl2, PNode.sc2, strOk]
+  | .seq fl st c items, ctx, m, h, hn => by
+    cases fl with
+    | true =>
+      simp only [PNode.ok, if_true] at h
+      simp only [PNode.fl2]
+      exact fl2_items_of_ok items h (by simpa [PNode.noAnchors] using hn)
+    | false => simp [PNode.ok] at h
+  | .map fl st c es, ctx, m, h, hn => by
+    cases fl with
+    | true =>
+      simp only [PNode.ok, if_true, Bool.and_eq_true] at h
+      simp only [PNode.fl2]
+      exact fl2_entries_of_ok es h.1 (by simpa [PNode.noAnchors] using hn)
+    | false => simp [PNode.ok] at h
+  | .anchored _ _, _, _, _, hn => by simp [PNode.noAnchors] at hn
+  | .alias _ _, _, _, _, hn => by simp [PNode.noAnchors] at hn
+theorem fl2_items_of_ok : (items : PItems) → items.ok true = true → items.noAnchors = true → items.fl2 = true
+  | .nil, _, _ => rfl
+  | .cons m x r, h, hn => by
+    simp only [PItems.ok, Bool.and_eq_true] at h
+    simp only [PItems.noAnchors, Bool.and_eq_true] at hn
+    simp only [PItems.fl2, Bool.and_eq_true]
+    exact ⟨fl2_of_ok x .seq m h.1.1.2 hn.1, fl2_items_of_ok r h.1.2 hn.2⟩
+theorem fl2_entries_of_ok : (es : PEntries) → es.ok true = true → es.noAnchors = true → es.fl2 = true
+  | .nil, _, _ => rfl
+  | .cons m k ks x r, h, hn => by
+    simp only [PEntries.ok, Bool.and_eq_true] at h
+    simp only [PEntries.noAnchors, Bool.and_eq_true] at hn
+    simp only [PEntries.fl2, Bool.and_eq_true]
+    exact ⟨⟨h.1.1.1.1.2, fl2_of_ok x .map m h.1.1.2 hn.1⟩, fl2_entries_of_ok r h.1.2 hn.2⟩
+end
+
+theorem trailOk2_of (m : Meta) (x : PNode) (hm : metaOk m = true) (hc : x.isCompact = true → m.trail = none) :
+    trailOk2 m x = true := by
+  simp only [metaOk, Bool.and_eq_true] at hm
+  cases ht : m.trail with
+  | none => simp [trailOk2, ht]
+  | some c =>
+    have h1 := hm.1.2
+    rw [ht] at h1
+    simp only [trailOk2, ht, Bool.and_eq_true, Bool.not_eq_true']
+    refine ⟨h1, ?_⟩
+    cases hx : x.isCompact with
+    | false => rfl
+    | true => have := hc hx; rw [ht] at this; cases this
+
+mutual
+theorem bl2_of_ok : (x : PNode) → ∀ (ctx : Ctx) (m : Meta), x.ok false ctx m = true → x.noAnchors = true →
+    x.bl2 ctx = true ∧ (x.isCompact = true → m.trail = none)
+  | .null v, _, _, _, _ => ⟨by simp [PNode.bl2, PNode.sc2], by simp [PNode.isCompact]⟩
+  | .bool _ _, _, _, _, _ => ⟨rfl, by simp [PNode.isCompact]⟩
+  | .int _ _, _, _, _, _ => ⟨rfl, by simp [PNode.isCompact]⟩
+  | .str s st, ctx, m, h, _ => by
+    refine ⟨?_, by simp [PNode.isCompact]⟩
+    cases st <;> simp_all [PNode.ok, PNode.bl2, PNode.sc2, strOk]
+  | .seq fl st c items, ctx, m, h, hn => by
+    have hn' : items.noAnchors = true := by simpa [PNode.noAnchors] using hn
+    cases fl with
+    | true =>
+      simp only [PNode.ok, if_true] at h
+      exact ⟨by simp only [PNode.bl2, PNode.fl2]; exact fl2_items_of_ok items h hn', by simp [PNode.isCompact]⟩
+    | false =>
+      simp only [PNode.ok, Bool.false_eq_true, if_false, Bool.not_false, Bool.true_and, Bool.and_eq_true,
+        Bool.not_eq_true'] at h
+      obtain ⟨⟨hnil, hi⟩, hc⟩ := h
+      have hb := bl2_items_of_ok items hi hn'
+      cases c with
+      | false =>
+        simp only [Bool.false_eq_true, if_false, Bool.or_eq_true, Bool.and_eq_true, decide_eq_true_eq] at hc
+        refine ⟨?_, by simp [PNode.isCompact]⟩
+        simp only [PNode.bl2, PItems.startOk, hnil, Bool.not_false, Bool.true_and, Bool.true_or, hb, Bool.false_eq_true,
+          if_false, Bool.and_eq_true, Bool.or_eq_true, decide_eq_true_eq, and_true, true_and]
+        rcases hc with (hc | hc) | hc
+        · exact Or.inl (Or.inl hc)
+        · exact Or.inl (Or.inr hc.1)
+        · exact Or.inr hc
+      | true =>
+        simp only [if_true, Bool.and_eq_true, Option.isNone_iff_eq_none] at hc
+        refine ⟨?_, fun _ => hc.2⟩
+        simp only [PNode.bl2, PItems.startOk, hnil, Bool.not_false, Bool.true_and, Bool.not_true, Bool.false_or, hc.1.2, hb,
+          if_true, hc.1.1, Bool.and_self]
+  | .map fl st c es, ctx, m, h, hn => by
+    have hn' : es.noAnchors = true := by simpa [PNode.noAnchors] using hn
+    cases fl with
+    | true =>
+      simp only [PNode.ok, if_true, Bool.and_eq_true] at h
+      exact ⟨by simp only [PNode.bl2, PNode.fl2]; exact fl2_entries_of_ok es h.1 hn', by simp [PNode.isCompact]⟩
+    | false =>
+      simp only [PNode.ok, Bool.false_eq_true, if_false, Bool.not_false, Bool.true_and, Bool.and_eq_true,
+        Bool.not_eq_true'] at h
+      obtain ⟨⟨⟨hnil, hi⟩, _⟩, hc⟩ := h
+      have hb := bl2_entries_of_ok es hi hn'
+      cases c with
+      | false =>
+        simp only [Bool.false_eq_true, if_false, Bool.or_eq_true, Bool.and_eq_true, decide_eq_true_eq] at hc
+        refine ⟨?_, by simp [PNode.isCompact]⟩
+        simp only [PNode.bl2, PEntries.startOk, hnil, Bool.not_false, Bool.true_and, Bool.true_or, hb, Bool.false_eq_true,
+          if_false, Bool.and_eq_true, Bool.or_eq_true, decide_eq_true_eq, and_true, true_and]
+        rcases hc with hc | hc
+        · exact Or.inl hc
+        · exact Or.inr hc.1
+      | true =>
+        simp only [if_true, Bool.and_eq_true, Option.isNone_iff_eq_none] at hc
+        refine ⟨?_, fun _ => hc.2⟩
+        simp only [PNode.bl2, PEntries.startOk, hnil, Bool.not_false, Bool.true_and, Bool.not_true, Bool.false_or, hc.1.2, hb,
+          if_true, hc.1.1, Bool.and_self]
+  | .anchored _ _, _, _, _, hn => by simp [PNode.noAnchors] at hn
+  | .alias _ _, _, _, _, hn => by simp [PNode.noAnchors] at hn
+theorem bl2_items_of_ok : (items : PItems) → items.ok false = true → items.noAnchors = true → items.bl2 = true
+  | .nil, _, _ => rfl
+  | .cons m x r, h, hn => by
+    simp only [PItems.ok, Bool.and_eq_true] at h
+    simp only [PItems.noAnchors, Bool.and_eq_true] at hn
+    obtain ⟨⟨⟨hm, hx⟩, hr⟩, hk⟩ := h
+    obtain ⟨hb, hc⟩ := bl2_of_ok x .seq m hx hn.1
+    have hm' := hm
+    simp only [metaOk, Bool.and_eq_true] at hm'
+    simp only [PItems.bl2, itemFill, Bool.and_eq_true]
+    exact ⟨⟨⟨⟨hm'.1.1, hk⟩, trailOk2_of m x hm hc⟩, hb⟩, bl2_items_of_ok r hr hn.2⟩
+theorem bl2_entries_of_ok : (es : PEntries) → es.ok false = true → es.noAnchors = true → es.bl2 = true
+  | .nil, _, _ => rfl
+  | .cons m k ks x r, h, hn => by
+    simp only [PEntries.ok, Bool.and_eq_true] at h
+    simp only [PEntries.noAnchors, Bool.and_eq_true] at hn
+    obtain ⟨⟨⟨⟨⟨hm, hkey⟩, _⟩, hx⟩, hr⟩, hk⟩ := h
+    obtain ⟨hb, hc⟩ := bl2_of_ok x .map m hx hn.1
+    have hm' := hm
+    simp only [metaOk, Bool.and_eq_true] at hm'
+    simp only [PEntries.bl2, entryFill, Bool.and_eq_true]
+    exact ⟨⟨⟨⟨⟨hm'.1.1, hk⟩, trailOk2_of m x hm hc⟩, hkey⟩, hb⟩, bl2_entries_of_ok r hr hn.2⟩
+end
+
+theorem docOk2_of_ok (first : Bool) (d : PDoc) (h : d.ok first = true) (hn : d.root.noAnchors = true) : docOk2 d = true := by
+  simp only [PDoc.ok, Bool.and_eq_true] at h
+  obtain ⟨⟨⟨⟨⟨⟨hfill, hmeta⟩, _⟩, hroot⟩, _⟩, hnull⟩, _⟩ := h
+  obtain ⟨hb, hc⟩ := bl2_of_ok d.root .root d.rootMeta hroot hn
+  simp only [docOk2, Bool.and_eq_true, Bool.or_eq_true]
+  refine ⟨⟨⟨hfill, hb⟩, trailOk2_of _ _ hmeta hc⟩, ?_⟩
+  by_cases hm : d.marker = true
+  · exact Or.inl hm
+  · right
+    cases hr : d.root with
+    | null v =>
+      rw [hr] at hnull
+      simp only [Bool.or_eq_true] at hnull
+      rcases hnull with h' | h'
+      · exact absurd h' hm
+      · simpa [bareOk] using h'
+    | _ => rfl
+
+theorem docsOk2_of_ok : ∀ (ds : List PDoc) (first : Bool), docsOk first ds = true →
+    (∀ d ∈ ds, d.root.noAnchors = true) → docsOk2 first ds = true
+  | [], _, _, _ => rfl
+  | d :: ds, first, h, hn => by
+    simp only [docsOk, Bool.and_eq_true] at h
+    obtain ⟨⟨hd, hds⟩, hk⟩ := h
+    have hd' := hd
+    simp only [PDoc.ok, Bool.and_eq_true] at hd'
+    simp only [docsOk2, Bool.and_eq_true]
+    exact ⟨⟨⟨docOk2_of_ok first d hd (hn d (List.mem_cons_self ..)), hd'.1.1.1.1.2⟩,
+      docsOk2_of_ok ds false hds (fun x hx => hn x (List.mem_cons_of_mem _ hx))⟩, hk⟩
+
+/-- `render_load` on characters for every admissible stream without anchors and aliases. -/
+theorem loadChars_admissible (s : PStream) (ha : admissible s = true) (hn : ∀ d ∈ s.docs, d.root.noAnchors = true) :
+    loadChars s.chars = .ok s.trees :=
+  loadChars_docs s (docsOk2_of_ok s.docs true ha hn)
+
+
+/-- One bare document (no `---`, no `...`, no filler lines before it, no comment on the root). -/
+def bareStream (x : PNode) (g : Nat) : PStream := { docs := [{ root := x, rootMeta := { gap := g } }] }
+
+theorem bareStream_ok (x : PNode) (g : Nat) (h : x.bl2 .root = true) (hb : bareOk x = true) :
+    docsOk2 true (bareStream x g).docs = true := by
+  simp [bareStream, docsOk2, docOk2, h, hb, trailOk2]
+
 end SV.YamlRef
